@@ -584,6 +584,7 @@ func (m *Muxer) Stop() (sendErr error, recvErr error) {
 	}
 
 	m.state.Store(muxerStopping)
+	verifYield("Muxer.Stop.stopping")
 	m.m.Unlock()
 
 	// If tubes do not correctly close after some time, assume they never will and force them to close.
@@ -602,6 +603,7 @@ func (m *Muxer) Stop() (sendErr error, recvErr error) {
 				r.l.Lock()
 				defer r.l.Unlock()
 				r.getLog().Error("Timed out. Forcing close")
+				verifTubeState(r, "cause.force")
 				r.enterClosedState()
 			}(v)
 		}
@@ -609,12 +611,15 @@ func (m *Muxer) Stop() (sendErr error, recvErr error) {
 	})
 
 	// Wait for all tubes to close
+	verifYield("Muxer.Stop.waiting")
 	wg.Wait()
 	m.state.Store(muxerStopped)
+	verifYield("Muxer.Stop.stopped")
 
 	close(m.prioritySendQueue)
 	close(m.sendQueue)
 	close(m.tubeQueue)
+	verifYield("Muxer.Stop.queuesClosed")
 
 	// Drain every queued tube frame before closing the transport. If a transport
 	// write is stuck, Close must interrupt it so shutdown cannot deadlock.
